@@ -1,4 +1,6 @@
-from ipv import Unit, Ob
+import os, re
+from ipv import Unit, Ob, VERIF
+from factories import ext_models
 
 SPEC_ACC = 'export static extern mutable thread_local register inline consteval constexpr virtual abstract explicit friend typedef public protected private'.split()
 QUAL_ACC = 'const volatile restrict'.split()
@@ -20,13 +22,27 @@ def build(tier, seed):
         Ob('C10.algebra.qualifiers', a, 'C10/algebra.c', 'h_q', '| & ^ |= &= ^= implies on Qualifiers are the set operations', kind='K1', replay='C10'),
         Ob('C10.map.specifiers', u, 'C10/basis.c', 'h_spec_map', 'each basic specifier maps to a distinct, non-empty, pairwise disjoint set (symbolic pair of table entries)', kind='K1', flags=['--unwind', '20'], replay='C10'),
         Ob('C10.map.qualifiers', u, 'C10/basis.c', 'h_qual_map', 'each basic qualifier maps to a distinct, non-empty, pairwise disjoint set', kind='K1', flags=['--unwind', '20'], replay='C10'),
-        Ob('C10.unknown', u, 'C10/basis.c', 'h_unknown', 'a logogram that is not a basic name is refused (normal return is unreachable)', kind='K1', flags=['--unwind', '20'], replay='C10'),
+        Ob('C10.unknown', u, 'C10/basis.c', 'h_unknown', 'a logogram that is not a basic name is refused (normal return is unreachable)', kind='K1', flags=['--unwind', '72'], replay='C10'),
         Ob('C10.unknown.reach', u, 'C10/basis.c', 'h_unknown_canary', 'vacuity guard of C10.unknown: known names do return', kind='K1', flags=['--unwind', '20'], replay='C10'),
         Ob('C10.accessors', u, 'C10/basis.c', 'h_accessors', 'each of the 20 named accessors equals the mapping of its own name (name found by spelling in the constant table)', kind='K1', flags=['--unwind', '57'], replay='C10', timeout=1200),
         Ob('C10.decompose.specifiers', u, 'C10/basis.c', 'h_spec_decompose', 'for every subset of the 18 basic specifiers (symbolic mask, all 2^18 at once) decompose(union) is exactly the subset', kind='K1', flags=['--unwind', '20'], replay='C10', timeout=1200),
         Ob('C10.decompose.any', u, 'C10/basis.c', 'h_spec_decompose_any', 'decompose of an arbitrary 64-bit value: an element is listed once iff its set is included; nothing invented', kind='K1', flags=['--unwind', '20'], replay='C10', timeout=1200),
         Ob('C10.decompose.qualifiers', u, 'C10/basis.c', 'h_qual_decompose', 'for every subset of the 3 basic qualifiers plus arbitrary foreign bits, decompose is exactly the subset', kind='K1', flags=['--unwind', '20'], replay='C10'),
     ]
+    def gen(unit):
+        # a logogram that is not a table entry is a foreign node: whatever the lookup asks of it is answered by the generic model of a
+        # foreign accessor, and its spelling -- should the lookup go by spelling -- is a view of exactly its own bytes (no terminator)
+        text = open(os.path.join(VERIF, 'harness/C10/basis.c')).read()
+        own = []
+        for v in unit.json['virtual_stubs']:
+            if v['method'] == 'ipr::String::characters':
+                own.append(v['name'] + '__ext')
+                text += ('\nstatic unsigned char* FS_BUF; static unsigned long FS_LEN;\n%s %s__ext(%s)\n{ if (FS_BUF == 0) { FS_LEN = nondet_ulong(); __CPROVER_assume(1 <= FS_LEN && FS_LEN <= 9); FS_BUF = __CPROVER_allocate(FS_LEN, 0);\n    for (int k = 0; k < NWORD; k++) __CPROVER_assume(FS_BUF[0] != WORDS[k].f_str.f_txt.f__M_str[0]);      /* not the spelling of any reserved word, hence of no basic name */ }\n'
+                         '  %s v; __builtin_memset(&v, 0, sizeof v); v.f__M_len = FS_LEN; v.f__M_str = FS_BUF; return v; }\n' % (v['ret'], v['name'], v['params'], v['ret']))
+        return text + '\n#ifndef NEWZ\n#define NEWZ(T) ((T*)__CPROVER_allocate(sizeof(T), 1))\n#endif\n' + ext_models(unit, skip=own), [], []
+    for o in obs:
+        if o.unit is u:
+            o.gen = gen
     # h_unknown has no reachable end by design; its vacuity guard is the separate obligation C10.unknown.reach
     obs[4].no_canary = True
     meta = dict(sweep_family='C10', functions_under_contract=sorted(names), assumptions=[
